@@ -13,6 +13,7 @@ PROP = {
              "or the payload carries flow files, or probes ran inside the switch. distinct = canonical JSON of the case"),
     "assumptions": [
         "HAProxy is a stub that answers 200 (or 500 for the injected call); health-check failures are not injected (each costs 40 real-time retries)",
+        "after a 2xx answer no part of the payload may be one that cannot be loaded (undecodable, not YAML, rejected by validation, metrics of the wrong shape): such an update was neither rejected nor applied as a whole",
         "one failure per update: a payload that is rejected anyway is not combined with an injected fault, so a fault never hits the recovery step of another failure",
         "the generated path-parameter file is not part of the compared configuration files; the gateway's built-in default metrics file is (an update must never change it)",
         "the syslog exporter on 127.0.0.1:5140 is served by a dummy listener when the port is free",
